@@ -593,20 +593,29 @@ type allocEvent struct {
 }
 
 var roMemo = map[string]bool{}
+var roVisiting = map[string]bool{}
 
 // paramReadOnly reports whether fn never writes through its idx-th parameter (a pointer or an interface holding one):
 // the parameter is only dereferenced for loads, compared, or handed to callees that are read-only in turn.
+// Results are memoised only when they do not depend on an optimistic assumption about a function still being analysed
+// (negative results always; positive results only for the root of the recursion), so the answer is independent of query order.
 func paramReadOnly(fn *ssa.Function, idx int, depth int) bool {
-	if fn == nil || fn.Blocks == nil || idx >= len(fn.Params) || depth > 3 {
+	if fn == nil || fn.Blocks == nil || idx >= len(fn.Params) {
 		return false
 	}
 	key := fmt.Sprintf("%p/%d", fn, idx)
 	if v, ok := roMemo[key]; ok {
 		return v
 	}
-	roMemo[key] = true // optimistic for recursion
+	if roVisiting[key] {
+		return true // optimistic inside a cycle
+	}
+	roVisiting[key] = true
 	ok := valueReadOnly(fn.Params[idx], depth, map[ssa.Value]bool{})
-	roMemo[key] = ok
+	delete(roVisiting, key)
+	if !ok || len(roVisiting) == 0 {
+		roMemo[key] = ok
+	}
 	return ok
 }
 
@@ -1013,17 +1022,22 @@ func isGeneratedGetter(p *Prog, fn *ssa.Function) (string, bool) {
 }
 
 var pureMemo = map[*ssa.Function]bool{}
+var pureVisiting = map[*ssa.Function]bool{}
 
 // isPureFn: a module function whose result depends only on its arguments: no interface dispatch, no calls out of the
 // module except the pure table, no stores except into its own locals, no channel/map mutation.
+// Memoisation is order-independent: see paramReadOnly.
 func isPureFn(fn *ssa.Function, depth int) bool {
-	if fn == nil || fn.Blocks == nil || !InModule(fn) || depth > 4 {
+	if fn == nil || fn.Blocks == nil || !InModule(fn) {
 		return false
 	}
 	if v, ok := pureMemo[fn]; ok {
 		return v
 	}
-	pureMemo[fn] = true
+	if pureVisiting[fn] {
+		return true
+	}
+	pureVisiting[fn] = true
 	ok := true
 	for _, b := range fn.Blocks {
 		for _, in := range b.Instrs {
@@ -1064,7 +1078,10 @@ func isPureFn(fn *ssa.Function, depth int) bool {
 			}
 		}
 	}
-	pureMemo[fn] = ok
+	delete(pureVisiting, fn)
+	if !ok || len(pureVisiting) == 0 {
+		pureMemo[fn] = ok
+	}
 	return ok
 }
 
